@@ -92,8 +92,12 @@ type Node struct {
 	height  map[refmodel.Hash]int32 // hash -> height on the best chain (genesis -> 0)
 	Cap     int                     // max headers per reply
 	// scripting knobs
-	DisconnectAtMsg   int // close the FIRST connection when its n-th message arrives (0 = never)
-	RepentAfterHeight int // after the first getheaders answer that contains this height the node switches to RepentChain (it follows the honest chain from then on)
+	DisconnectAtMsg   int  // close the FIRST connection when its n-th message arrives (0 = never)
+	LoseFirstN        int  // DisconnectAtMsg / CloseAfterVersion apply to the first n connections instead of the first only (0 = 1)
+	CloseAfterVersion bool // the FIRST connection is lost in the middle of the handshake: the node sends its version message and never a verack
+	IgnoreStop        bool // getheaders answers do not end at the stop hash ("all that remain or at most Cap")
+	SilentFirst       bool // the FIRST connection never answers getheaders; later ones do
+	RepentAfterHeight int  // after the first getheaders answer that contains this height the node switches to RepentChain (it follows the honest chain from then on)
 	RepentChain       []refmodel.Hdr
 	MarkHash          refmodel.Hash // a getheaders answer that contains the header with this hash is logged with " [marked]"
 	VersionLag        int           // the version message reports a height this many blocks below the node's chain (blocks found since)
@@ -400,6 +404,12 @@ func (c *Conn) loop() {
 	first := false
 	n.mu.Lock()
 	first = len(n.conns) > 0 && n.conns[0] == c
+	early := first
+	for k := 0; k < n.LoseFirstN && k < len(n.conns); k++ {
+		if n.conns[k] == c {
+			early = true
+		}
+	}
 	n.mu.Unlock()
 	for {
 		msg, _, err := wire.ReadMessage(c.c, pver, n.Net)
@@ -420,9 +430,10 @@ func (c *Conn) loop() {
 		}
 		n.Log.add(Event{Node: n.Name, Conn: c.ID, Dir: "in", Cmd: msg.Command(), Info: info})
 		n.mu.Lock()
-		discAt, stallAfter, silent := n.DisconnectAtMsg, n.StallAfterMsg, n.Silent
+		discAt, stallAfter, silent := n.DisconnectAtMsg, n.StallAfterMsg, n.Silent || (n.SilentFirst && first)
+		halfHs := n.CloseAfterVersion && early
 		n.mu.Unlock()
-		if first && discAt > 0 && cnt >= discAt {
+		if early && discAt > 0 && cnt >= discAt {
 			c.Close(fmt.Sprintf("scripted disconnect at message %d", cnt))
 			return
 		}
@@ -434,6 +445,10 @@ func (c *Conn) loop() {
 				if err := c.write(c.versionMsg(), ""); err != nil {
 					return
 				}
+			}
+			if halfHs {
+				c.Close("scripted: connection lost after the node's version message, before its verack")
+				return
 			}
 			if err := c.write(wire.NewMsgVerAck(), ""); err != nil {
 				return
@@ -530,7 +545,7 @@ func (c *Conn) answerGetHeaders(m *wire.MsgGetHeaders) error {
 	}
 	end := int32(len(n.chain))
 	var zero chainhash.Hash
-	if m.HashStop != zero {
+	if m.HashStop != zero && !n.IgnoreStop {
 		if h, ok := n.height[refmodel.Hash(m.HashStop)]; ok {
 			end = h
 		}
